@@ -144,6 +144,8 @@ class Run(object):
                    'undecided=%d units=%d paths=%d wall=%.2fs' %
                    (self.prop, self.tier, len(self.rules), n_ob, n_ok, len(new), len(listed),
                     len(self.undecided), len(self.units_analysed), self.paths_enumerated, wall))
+        for n in self.notes:
+            out.append('note: ' + n)
         out.append(summary)
         if not quiet:
             print('\n'.join(out))
